@@ -230,6 +230,9 @@ def scn_fix(T, case):
     T.prove(PFX + ".fix_perturbations.boundary_types_broadcast", tuple(np.shape(me.updated["boundary_types"])) == (N,))
 
 
+# the proof per element at shape (1,) is a proof for every shape iff only element-wise operations occur (checked by the driver on every run)
+ALL_SHAPES_BY_ELEMENTWISE = ("apply_bounds",)
+
 SCENARIOS = [
     Scenario("apply_bounds", scn_apply_bounds, cases_apply_bounds, {"quick": 30, "thorough": 400}),
     Scenario("perturb_variables", scn_perturb, cases_perturb, {"quick": 10, "thorough": 100}),
